@@ -302,6 +302,8 @@ def gen_spec(prop, rng, tier):
             if rng.random() < 0.2:
                 seqs[rng.randrange(len(seqs))] = ''
         spec['arr_seqs'] = seqs
+    if mode != 'arr' and rng.random() < 0.08:
+        spec['pipe_in'] = 1
     if mode == 'lib' and rng.random() < 0.3:
         # the other two public calls that take an msa: reformat_settings_msa (rename / unalign) and kalign_check_msa
         spec['libops'] = [rng.choice([['M', 1, 0], ['M', 1, 1], ['M', 0, 1], ['V', 0], ['V', 0], ['V', 1]]) for _ in range(rng.choice([1, 1, 2]))]
@@ -381,7 +383,9 @@ def build_plan(spec, fault_in, tag, junk=None):
                 stdin = (v, b'')
     pieces = pieces_of(data)
     more = ['in%d.dat' % k for k in range(1, len(pieces))]
-    p.files.append((infile, kind, pieces[0] if kind == 'f' else b''))
+    if kind == 'f' and spec.get('pipe_in'):
+        kind = 'p'                    # the first source is a named pipe / process substitution: stat() reports size 0
+    p.files.append((infile, kind, pieces[0] if kind in ('f', 'p') else b''))
     for j, (fn, piece) in enumerate(zip(more, pieces[1:])):
         p.files.append((fn, 'd', b'') if (j + 1) in dirsrc else (fn, 'f', piece))
     for fault in flist(fault_in):
@@ -645,7 +649,7 @@ def judge(spec, results):
         oc = outcome(spec, r, ix, fault)
         ocs[tag] = oc
         nsrc = spec['data'].count(CUT.decode('latin-1')) + 1
-        desc = '[%s %s input=%s%s%s fault=%s%s]' % (spec['mode'], spec['cls'], spec['fmt_in'], ('+' + '+'.join(spec['muts'])) if spec['muts'] else '', (' in %d sources' % nsrc) if nsrc > 1 else '', fault_name(fault),
+        desc = '[%s %s input=%s%s%s fault=%s%s]' % (spec['mode'], spec['cls'], spec['fmt_in'] + ('(pipe)' if spec.get('pipe_in') else ''), ('+' + '+'.join(spec['muts'])) if spec['muts'] else '', (' in %d sources' % nsrc) if nsrc > 1 else '', fault_name(fault),
                                                 (' args=' + ' '.join(spec['extra_args'])) if spec['extra_args'] else '')
         if oc[0] == 'BAD':
             if oc[1] == 'CRASH':
